@@ -9,12 +9,16 @@ use vstd::prelude::*;
 use vstd::std_specs::cmp::*;
 use std::rc::Rc;
 use std::io;
+use std::io::BufRead;
 use std::iter::Peekable;
 use std::slice::Iter;
 use std::fmt::{self, Debug, Display};
 verus! {
 
 // ======================= trusted shims (each item = one assumption id, DESIGN §4) =======================
+
+// [A11] usize is 64 bit
+global size_of usize == 8;
 
 pub type Sym = NamedSymbol;
 
@@ -100,6 +104,23 @@ pub assume_specification<T, U, D: FnOnce() -> U, F: FnOnce(T) -> U> [Option::<T>
     requires match o { None => default.requires(()), Some(t) => f.requires((t,)) }
     ensures match o { None => default.ensures((), r), Some(t) => f.ensures((t,), r) };
 
+/// p is a bijection on 0..n
+pub open spec fn is_perm(p: Seq<int>, n: int) -> bool {
+    p.len() == n && (forall|i: int| 0 <= i < n ==> 0 <= #[trigger] p[i] < n)
+    && (forall|i: int, j: int| 0 <= i < n && 0 <= j < n && i != j ==> #[trigger] p[i] != #[trigger] p[j])
+}
+// <[T]>::sort_by: the result is a rearrangement of the input, and no element is Greater than a later one
+pub assume_specification<T, F: FnMut(&T, &T) -> core::cmp::Ordering> [<[T]>::sort_by] (s: &mut [T], f: F)
+    requires forall|a: &T, b: &T| f.requires((a, b))
+    ensures
+        exists|p: Seq<int>| is_perm(p, old(s)@.len() as int) && final(s)@.len() == old(s)@.len()
+            && forall|i: int| 0 <= i < old(s)@.len() ==> #[trigger] final(s)@[i] == old(s)@[p[i]],
+        forall|i: int, j: int| #![trigger final(s)@[i], final(s)@[j]] 0 <= i < j < final(s)@.len() ==>
+            exists|o: core::cmp::Ordering| #[trigger] f.ensures((&final(s)@[i], &final(s)@[j]), o) && o != core::cmp::Ordering::Greater;
+
+pub assume_specification<T, U, F: FnOnce(T) -> U> [Option::<T>::map_or] (o: Option<T>, default: U, f: F) -> (r: U)
+    requires o is Some ==> f.requires((o->Some_0,))
+    ensures match o { None => r == default, Some(t) => f.ensures((t,), r) };
 pub assume_specification<T, E> [std::result::Result::<T, E>::unwrap_or] (r: std::result::Result<T, E>, d: T) -> (x: T)
     ensures x == (match r { Ok(t) => t, Err(_) => d });
 pub assume_specification [i64::saturating_add] (a: i64, b: i64) -> (r: i64)
@@ -141,6 +162,11 @@ pub struct ExErrorKind(std::io::ErrorKind);
 #[verifier::reject_recursive_types(I)]
 pub struct ExPeekable<I: Iterator>(Peekable<I>);
 
+// [N13] the input stream parameter `&mut dyn BufRead` is re-spelled `&mut DynBufRead` (opaque): Verus cannot declare a dyn
+// trait with supertraits; the stream is only forwarded to the (unverified) tokenizer
+#[verifier::external_body]
+pub struct DynBufRead { r: Box<dyn BufRead> }
+
 // [N5] error construction: message text is dropped, the fact that an Err is returned is kept
 #[verifier::external_body]
 pub fn io_error_new<M>(k: std::io::ErrorKind, m: M) -> std::io::Error { unimplemented!() }
@@ -156,6 +182,12 @@ pub assume_specification<I: Iterator> [Peekable::<I>::peek] (p: &mut Peekable<I>
 pub assume_specification<I: Iterator> [<Peekable<I> as Iterator>::next] (p: &mut Peekable<I>) -> (r: Option<I::Item>)
     ensures
         match r { Some(t) => rest(*old(p)).len() > 0 && t == rest(*old(p))[0] && rest(*final(p)) == rest(*old(p)).subrange(1, rest(*old(p)).len() as int), None => rest(*old(p)).len() == 0 && rest(*final(p)) == rest(*old(p)) };
+
+// [N12] `tokens.iter().peekable()` (a provided trait method Verus cannot give a specification) is re-spelled token_reader(&tokens)
+#[verifier::external_body]
+pub fn token_reader<'a>(v: &'a Vec<SymbolicBDDToken>) -> (r: Peekable<Iter<'a, SymbolicBDDToken>>)
+    ensures toks(r) == v@
+{ v.iter().peekable() }
 
 /// the tokens still ahead of the reader
 pub open spec fn toks(p: Peekable<Iter<'_, SymbolicBDDToken>>) -> Seq<SymbolicBDDToken> {
@@ -210,16 +242,21 @@ impl RefCell<FxHashMap<BDD, Rc<BDD>>> {
 }
 
 impl<'a> TableRef<'a> {
+    /// k has no entry in the table this handle borrows (fixed for the lifetime of the handle until it inserts)
+    pub uninterp spec fn absent(&self, k: BDD) -> bool;
+
     #[verifier::external_body]
     pub fn get(&self, k: &BDD) -> (r: Option<&Rc<BDD>>)
         ensures
             match r { Some(v) => **v == *k, None => true },
             (*k == BDD::True || *k == BDD::False) ==> r is Some,
+            r is None <==> self.absent(*k),
     { unimplemented!() }
 
+    /// an entry is only ever added for a structure that has none (one shared node per structure, never replaced)
     #[verifier::external_body]
     pub fn insert(&mut self, k: BDD, v: Rc<BDD>) -> (r: Option<Rc<BDD>>)
-        requires *v == k
+        requires *v == k, old(self).absent(k)
     { unimplemented!() }
 
     #[verifier::external_body]
